@@ -34,7 +34,7 @@ Option ==
             /\ UNCHANGED <<opts, cmd, st, exit, diag>>
 \* the commands' own argument checks and their need for a mounted drive
 NeedsDrive(c) == c \in {"cat", "info-all", "free", "type-file", "sector-map", "dump-sector-ok"}
-CmdFails(c) == c \in {"none", "nosuch", "info-noarg", "info-badpat", "type-noarg", "type-missing", "dump-sector-args", "dump-sector-range",
+CmdFails(c) == c \in {"none", "nosuch", "info-noarg", "info-badpat", "type-noarg", "type-missing", "dump-sector-args", "dump-sector-range", "dump-sector-overflow", "dump-sector-negoverflow", "cat-overflow", "free-overflow",
                       "cat-junk", "free-junk", "extract-noarg", "extract-emptydest", "extract-nodir", "help-nosuch", "cat-nodrive"}
 Command ==
     /\ st = "options" /\ i > Len(opts)
